@@ -27,6 +27,11 @@ CHECKS = {
             "Parts A/B: for every path of the real assert_equivalent_dimension / validate_input / validate_output / QuantityVector.__init__ z3 decides that the outcome equals the gate predicate of the statement for ALL scale factors and ALL real exponent vectors, and that the explored paths cover the input space. Part C is per-function binding evidence (one solver-chosen wrong dimension per guarded parameter, executed concretely).",
             "Trusted: z3, the listed stubs of vlib/lift.py (dimsys_SI predicates, is_any_dimension/is_number on symbolic scalars), sympy's get_dimensional_dependencies for concrete dimensions. Reals stand in for floats; a float 0.0 is covered by a concrete enumeration.",
             "3.4"),
+    "C05": ("L", "other",
+            "lifted native execution of the real Quantity constructor/collectors on enumerated expression trees with symbolic scale factors and dimension vectors; every path compared by z3 with the statement's compositional semantics; path-cover check",
+            "For every tree within the bound (<=3 leaves quick, <=4 thorough; depth<=2, sampled depth 3) z3 decides for ALL leaf values and ALL leaf dimensions that acceptance <=> well-formedness and that the returned scale factor and dimension equal the value and dimensional product.",
+            "Trusted: z3, vlib/qspec.py (semantics written from the statement), vlib/lift.py stubs, SymPy's canonicalisation of the input tree. Finite reals only; infinite/NaN leaves and complex factors are outside.",
+            "3.5"),
 }
 
 NOT_APPLICABLE = {
